@@ -23,6 +23,11 @@ KW = ['if', 'class', 'str', 'del', 'register', 'int8_t', 'strcopy', 'EMACRO', '_
       'global', 'nonlocal', 'pass', 'assert', 'async', 'await', 'True_', 'False_', 'dict', 'object',
       'concept', 'requires', 'co_await', 'export', 'friend', 'typename', 'this', 'virtual', 'constexpr',
       'nullptr', 'alignas', 'decltype', 'noexcept', 'static_assert', 'thread_local', 'bitand', 'compl', 'not_eq']
+# reserved only through a *pattern* of one identifier category (function / typedef / macro / enum), not keywords: the same
+# token is stropped differently depending on the role it is used in
+PATTERN_NAMES = ['strcopy', 'isalpha', 'strlen', 'memset', 'toupper', 'int8_t', 'uint8_t', 'atomic_x', 'cnd_a', 'mtx_q', 'thrd_a',
+                 'SIGX', 'TIME_A', 'E2BIG', 'EMACRO', 'wcsx', 'torque', 'string', 'memory', 'isolated', 'tools', 'memory_order_q',
+                 'tss_q', 'FE_Q', 'LC_Q', 'PRIq', 'SCNq', 'INT8_MAX', 'ATOMIC_Q']
 PLAIN = ['alphaq', 'betaq', 'gammaq', 'deltaq', 'fooq', 'barq', 'bazq', 'quxq', 'speedq', 'tempq', 'voltq', 'xq',
          'yq', 'zq', 'wq', 'dataq', 'payloadq', 'flagsq', 'modeq', 'statusq', 'kappaq', 'lambdq', 'sigmaq', 'thetaq']
 DOCS = ['doc </pre><script>alert(1)</script> & "q" \'s\'', 'plain doc', 'a <b>bold</b> move', 'x < y && y > z',
@@ -40,13 +45,22 @@ class Gen:
         self.docs = self.hostile if docs is None else docs
         # a small theme of reserved-ish names reused across namespaces, types and fields of one set, so the same token
         # shows up in different identifier roles (path component, type name, field, constant)
-        self.theme = self.r.sample(KW, 6)
+        self.theme = self.r.sample(PATTERN_NAMES, 3) + self.r.sample(KW, 3)
 
-    def name(self, used, cap=False):
+    def name(self, used, cap=False, p_theme=0.3):
         r = self.r
         for _ in range(200):
             c = r.random()
-            n = r.choice(self.theme if (self.hostile and c < 0.3) else KW if (self.hostile and c < 0.45) else PLAIN)
+            n = r.choice(self.theme if (self.hostile and c < p_theme) else KW if (self.hostile and c < p_theme + 0.15) else PLAIN)
+            if n in self.theme and r.random() < 0.7:
+                # themed names are used verbatim (no digit suffix) so that they really collide across roles
+                if cap:
+                    n = n[0].upper() + n[1:]
+                k = n.lower().strip('_')
+                if k not in used and re.fullmatch(r'[A-Za-z_][A-Za-z0-9_]*', n):
+                    used.add(k)
+                    return n
+                continue
             if r.random() < 0.4:
                 n += str(r.randint(0, 9))
             if cap:
@@ -143,9 +157,9 @@ class Gen:
             usedns = collections.defaultdict(set)
             for _ in range(r.randint(0, 3)):
                 base = r.choice(nss)
-                nss.append(base + [self.name(usedns['.'.join(base)])])
+                nss.append(base + [self.name(usedns['.'.join(base)], p_theme=0.6)])
                 if r.random() < 0.3:  # possibly an empty intermediate namespace
-                    nss.append(nss[-1] + [self.name(usedns['.'.join(nss[-1])])])
+                    nss.append(nss[-1] + [self.name(usedns['.'.join(nss[-1])], p_theme=0.6)])
             used_t = collections.defaultdict(set)
             for _ in range(r.randint(*types_per_root)):
                 ns = r.choice(nss)
